@@ -382,6 +382,80 @@ pub fn drive_check<I: Iterator, F: Fn() -> I, C: Fn(I::Item) -> String>(make: F,
             }
         }
     }
+    // every consuming adapter from every state: after c calls of next() the REST is consumed by fold / for_each /
+    // count / last / try_fold-based adapters (find, position, all) / collect / min_by_key -- an override of any of
+    // them must continue where next() stopped, in the middle of an op as well
+    let mut cs: Vec<usize> = (0..=total.min(6)).collect();
+    for d in [2usize, 1, 0] {
+        cs.push(total.saturating_sub(d));
+    }
+    cs.sort();
+    cs.dedup();
+    for &c in &cs {
+        let adv = || {
+            let mut it = make();
+            for _ in 0..c {
+                it.next();
+            }
+            it
+        };
+        let rest = &want[c..];
+        let f: Vec<String> = adv().fold(vec![], |mut v, x| {
+            v.push(conv(x));
+            v
+        });
+        if f[..] != rest[..] {
+            return Err(format!("next() x{} then fold() visits {} items, {} remain", c, f.len(), rest.len()));
+        }
+        let mut fe: Vec<String> = vec![];
+        adv().for_each(|x| fe.push(conv(x)));
+        if fe[..] != rest[..] {
+            return Err(format!("next() x{} then for_each() visits {} items, {} remain", c, fe.len(), rest.len()));
+        }
+        if adv().count() != rest.len() {
+            return Err(format!("next() x{} then count() gave {} expected {}", c, adv().count(), rest.len()));
+        }
+        let l = adv().last().map(&conv);
+        if l.as_deref() != rest.last().map(|s| s.as_str()) {
+            return Err(format!("next() x{} then last() gave {:?} expected {:?}", c, l, rest.last()));
+        }
+        let mut seen: Vec<String> = vec![];
+        let none = adv().find(|_| false);
+        if none.is_some() {
+            return Err("find(|_| false) found an item".to_string());
+        }
+        let mut it = adv();
+        let all = it.all(|x| {
+            seen.push(conv(x));
+            true
+        });
+        if !all || seen[..] != rest[..] {
+            return Err(format!("next() x{} then all() visits {} items, {} remain", c, seen.len(), rest.len()));
+        }
+        if let Some(target) = rest.get(rest.len() / 2) {
+            let mut it = adv();
+            let p = it.position(|x| &conv(x) == target);
+            let first = rest.iter().position(|s| s == target);
+            if p != first {
+                return Err(format!("next() x{} then position() gave {:?} expected {:?}", c, p, first));
+            }
+            // and the iterator continues right behind the found item
+            let after: Vec<String> = it.map(&conv).collect();
+            if after[..] != rest[first.unwrap() + 1..] {
+                return Err(format!("next() x{} then position() then draining gave {} items", c, after.len()));
+            }
+        }
+        let mut it = adv();
+        let head: Vec<String> = it.by_ref().take(2).map(&conv).collect();
+        let tail: Vec<String> = it.fold(vec![], |mut v, x| {
+            v.push(conv(x));
+            v
+        });
+        let joined: Vec<String> = head.into_iter().chain(tail).collect();
+        if joined[..] != rest[..] {
+            return Err(format!("next() x{}, by_ref().take(2), then fold() gave {} items, {} remain", c, joined.len(), rest.len()));
+        }
+    }
     if make().count() != total {
         return Err(format!("count() gave {} expected {}", make().count(), total));
     }
